@@ -1040,7 +1040,7 @@ func c05Corpus() []c05Case {
 func TestC05(t *testing.T) {
 	seed := envInt("VERIF_SEED", 1)
 	col := NewCollector("C05", seed)
-	nPure, nApp := 1300, 36
+	nPure, nApp := 1500, 72
 	if tier() == "thorough" {
 		nPure, nApp = 24000, 400
 	}
